@@ -5,7 +5,7 @@ import inspect
 import types
 import z3
 
-from pyvc.models import Models
+from pyvc.models import Models, WS_STR, re_ws, is_ws_char
 from pyvc.exec import Unsupported, Raise, is_exc_class
 from pyvc import extract
 from pyvc.sym import (V, VInt, VBool, VStr, VBytes, VNone, NONE, VTuple, VList, VSeq, VConc, VInst,
@@ -229,5 +229,85 @@ class CommonModels(Models):
     def on_observer_fire(self, ex, path, inst, value):
         pass
 
+    def join_hook(self, ex, path, sep, a):
+        from pyvc.sym import VSet
+        if isinstance(a, VSet) and isinstance(sep, VStr):
+            # message text only: some string
+            return [(path, VStr(ex.fresh_str(path, 'joined')))]
+        return None
+
+    # str.split() on a symbolic string (A7): an uninterpreted function whose first token is
+    # characterised exactly (maximal whitespace-free run after leading whitespace)
+    def split_hook(self, ex, path, s, args, kw):
+        if args or kw or not isinstance(s, VStr):
+            return None
+        self.assumptions.add('str.split(): tokens are the maximal whitespace-free runs; first token characterised exactly')
+        n = path.fresh()
+        lead = z3.String('split_lead!%d' % n)
+        rest = z3.String('split_rest!%d' % n)
+        ws = z3.Star(re_ws())
+        allws = z3.InRe(s.t, ws)
+        t0 = F_tok(s.t, 0)
+        ntok = F_ntok(s.t)
+        path.assume_def([lead, rest], [
+            ntok >= 0,
+            z3.Implies(allws, ntok == 0),
+            z3.Implies(z3.Not(allws), z3.And(
+                ntok >= 1,
+                s.t == z3.Concat(lead, t0, rest), z3.InRe(lead, ws), z3.Length(t0) > 0, no_ws_in(t0),
+                z3.Or(z3.Length(rest) == 0, is_ws_char(z3.SubString(rest, 0, 1))),
+                z3.Implies(z3.Length(rest) == 0, ntok == 1)))])
+        # the axioms are about the applications F_tok(s, .), F_ntok(s): reachable from those symbols
+        path.defs[-1] = (path.defs[-1][0] | frozenset(['str_split_tok', 'str_split_ntok']), path.defs[-1][1])
+        return [(path, VTokens(s.t))]
+
+    def index(self, ex, path, o, i):
+        if isinstance(o, VTokens) and isinstance(i, VInt):
+            n = F_ntok(o.s)
+            out = []
+            ok, ci = concrete_of(i)
+            inb = z3.And(i.t < n, i.t >= -n)
+            pt, pf = ex.branch(path, inb)
+            if pt is not None:
+                idx = i.t if (ok and ci >= 0) else z3.If(i.t < 0, i.t + n, i.t)
+                out.append((pt, VStr(F_tok(o.s, idx))))
+            if pf is not None:
+                out.extend(ex.raise_(pf, IndexError, 'list index out of range'))
+            return out
+        return Models.index(self, ex, path, o, i)
+
+    def len_hook(self, ex, path, v):
+        if isinstance(v, VTokens):
+            return [(path, VInt(F_ntok(v.s)))]
+        return None
+
+    def str_format(self, ex, path, fmt, arg):
+        ok, c = concrete_of(fmt)
+        if ok and c.count('%') == 1 and c.count('%s') == 1:
+            a = arg.items[0] if isinstance(arg, VTuple) and len(arg.items) == 1 else arg
+            if isinstance(a, VStr):
+                pre, post = c.split('%s')
+                return [(path, VStr(z3.Concat(mk_str(pre), a.t, mk_str(post))))]
+        return Models.str_format(self, ex, path, fmt, arg)
+
+
+
     def on_already_fired(self, ex, path, inst, d):
         pass
+
+
+F_tok = z3.Function('str_split_tok', z3.StringSort(), z3.IntSort(), z3.StringSort())
+F_ntok = z3.Function('str_split_ntok', z3.StringSort(), z3.IntSort())
+
+
+class VTokens(V):
+    """result of s.split(): tokens given by uninterpreted F_tok(s, k), k < F_ntok(s)"""
+    def __init__(self, s):
+        self.s = s
+
+
+
+def no_ws_in(t):
+    return z3.And(*[z3.Not(z3.Contains(t, mk_str(c))) for c in WS_STR])
+
+
